@@ -24,6 +24,11 @@ Legs (every leg is a complete product of a stated alphabet, nothing is sampled):
                character (space, escaped tab/LF/CR, NBSP, ...) x placement (lead, trail, both, interior) x sibling content x wrapper;
                item lists of 0..33 items that are identical / distinct / padded / partly blank.  Same oracle as (D), through
                ``parse_and_validate`` and ``plan_with_llm``.
+(D3) code points: every kind of code point a Python ``str`` can hold (controls, NUL, the separators ``str.strip`` / ``splitlines`` honour and
+               JSON does not, format characters, BOM, non-characters, lone / reversed surrogates, astral) x raw or \\u-escaped x
+               repetitions (1, 2, around each limit, beyond the raw-size guard) x every slot of a valid planner text (outside, in the
+               fence line, between the JSON tokens, in key / item / rationale / reflection, alone) x wrapper; thorough: all ordered pairs
+               of kinds x slots.  Same oracle as (D), through ``parse_and_validate``, ``plan_with_llm`` and ``sanitize_plan``.
 """
 from __future__ import annotations
 
@@ -56,12 +61,22 @@ def _ckey(case):
     return (len(t), t)
 
 
+def _printable(what, limit=6000):
+    """The runner prints ``what`` and writes it to a UTF-8 replay file: keep it encodable whatever the failing input contains
+    (lone surrogates, controls) and bounded (an exception text may quote a 20k-character input)."""
+    t = str(what).encode("ascii", "backslashreplace").decode("ascii")
+    t = "".join(ch if (" " <= ch <= "~") else "\\x%02x" % ord(ch) for ch in t)
+    if len(t) > limit:
+        t = t[:limit - 400] + " ...(%d characters)... " % len(t) + t[-300:]
+    return t
+
+
 def viol(st, sig, what, case):
     """st.violation with a total order on cases (length, then text) so that the reported witness does not depend on
     which worker finishes first."""
     old = st.viol.get(sig)
     if old is None or _ckey(case) < _ckey(old[1]):
-        st.viol[sig] = (what, case)
+        st.viol[sig] = (_printable(what), case)
 
 
 def install_canonical_merge(run):
@@ -944,6 +959,9 @@ def candidates(text):
     """Every reading of 'the fence-stripped text' that a faithful implementation could take (generous)."""
     s = text.strip()
     yield s
+    if s.startswith("\ufeff"):
+        # RFC 8259 section 8.1: a parser MAY ignore a leading byte order mark instead of treating it as an error
+        yield s[1:].strip()
     if len(s) >= 6 and s.startswith("```") and s.endswith("```"):
         inner = s[3:-3]
         if "\n" in inner:
@@ -1567,6 +1585,243 @@ def _selfcheck_limit_builder():
 
 
 # =====================================================================================================
+# (D3) kind of code point x where it sits
+# =====================================================================================================
+# Legs (D) and (D2) spell every text with ASCII plus four well-formed non-ASCII characters that always sit INSIDE a JSON string
+# value.  "All strings offered to the sanitiser" are Python ``str`` values, and a ``str`` can hold code points that are unremarkable
+# for ``len`` / slicing / ``json.loads`` and special for everything else a sanitiser might do with the text (encode it, normalise
+# it, split it into lines, strip it, classify its characters, log it): lone surrogates (the product of a clipped ``\ud83d`` escape in
+# a provider envelope or of ``errors="surrogateescape"``), NUL and the other C0/C1 controls, the separators that ``str.strip`` /
+# ``str.splitlines`` honour and JSON does not (FS..US, VT, FF, NEL, NBSP, LS, PS, U+3000), format characters (BOM, ZWSP, RLO),
+# combining marks, non-characters, private use, non-ASCII digits, the last code point.  This leg enumerates the product
+#     {kind of code point} x {raw | spelled as a JSON \u escape} x {how many of them: 1, 2, around each documented limit, beyond
+#     the raw-size guard} x {slot of the text: before / after everything, around and inside the fence line, between the JSON
+#     tokens, inside the key, inside / as the whole plan item, rationale, reflection string, or alone} x {wrapper}
+# (thorough: also every ordered pair of two different kinds in two different slots) and runs every text through
+# ``parse_and_validate`` and ``plan_with_llm``; a smaller product goes through ``sanitize_plan``.  Oracle = the one of leg (D):
+# never raises; accepted => one JSON object within the documented limits for the independent acceptor, returned object within limits.
+def _esc_units(s):
+    out = []
+    for ch in s:
+        o = ord(ch)
+        if o >= 0x10000:
+            o -= 0x10000
+            out.append("\\u%04x\\u%04x" % (0xD800 + (o >> 10), 0xDC00 + (o & 0x3FF)))
+        else:
+            out.append("\\u%04x" % o)
+    return "".join(out)
+
+
+# (name, group for signatures, the code point(s))
+CP_KINDS = [
+    ("nul", "control", "\x00"),
+    ("c0-control", "control", "\x01"),
+    ("escape", "control", "\x1b"),
+    ("vertical-tab", "separator", "\x0b"),
+    ("form-feed", "separator", "\x0c"),
+    ("file-separator", "separator", "\x1c"),
+    ("unit-separator", "separator", "\x1f"),
+    ("delete", "control", "\x7f"),
+    ("c1-next-line", "separator", "\x85"),
+    ("c1-control", "control", "\x9f"),
+    ("no-break-space", "separator", "\xa0"),
+    ("latin-letter", "plain", "\xe9"),
+    ("combining-mark", "format", "\u0301"),
+    ("arabic-indic-digit", "plain", "\u0661"),
+    ("zero-width-space", "format", "\u200b"),
+    ("line-separator", "separator", "\u2028"),
+    ("paragraph-separator", "separator", "\u2029"),
+    ("right-to-left-override", "format", "\u202e"),
+    ("ideographic-space", "separator", "\u3000"),
+    ("high-surrogate", "surrogate", "\ud83d"),
+    ("low-surrogate", "surrogate", "\udc80"),
+    ("reversed-surrogate-pair", "surrogate", "\ude00\ud83d"),
+    ("private-use", "plain", "\ue000"),
+    ("byte-order-mark", "format", "\ufeff"),
+    ("fullwidth-digit", "plain", "\uff11"),
+    ("noncharacter", "plain", "\uffff"),
+    ("astral", "plain", "\U0001F600"),
+    ("last-code-point", "plain", "\U0010ffff"),
+]
+CP_FORMS = ["raw", "escaped"]
+CP_BODY_SLOTS = ["lead", "after-open-brace", "in-key", "before-colon", "after-open-bracket", "in-item", "whole-item", "after-item",
+                 "after-comma", "after-colon", "in-rationale", "whole-rationale", "in-reflection-string", "before-close-brace", "trail",
+                 "alone"]
+CP_FENCE_SLOTS = ["before-fence", "in-fence-tag", "after-fence"]
+CP_WRAPS_QUICK = ["bare", "fenced-json"]
+CP_WRAPS_THOROUGH = ["bare", "fenced-json", "fenced-untagged"]
+CP_COUNTS_QUICK = [1, 2, LIM_ITEM_LEN, LIM_ITEM_LEN + 1, 20001]
+CP_COUNTS_THOROUGH = [1, 2, 3, LIM_ITEM_LEN - 1, LIM_ITEM_LEN, LIM_ITEM_LEN + 1, LIM_RAT - 1, LIM_RAT, LIM_RAT + 1, 20001]
+_CP_BY_NAME = {k: (g, u) for k, g, u in CP_KINDS}
+assert len(_CP_BY_NAME) == len(CP_KINDS)
+
+
+def cp_slots(wrap):
+    return CP_BODY_SLOTS + (CP_FENCE_SLOTS if wrap != "bare" else [])
+
+
+def cp_unit(kind, form):
+    u = _CP_BY_NAME[kind][1]
+    return u if form == "raw" else _esc_units(u)
+
+
+def cp_text(ins, wrap):
+    """ins: mapping slot -> inserted text.  The text without insertions is a valid planner object in the given wrapper."""
+    g = lambda name: ins.get(name, "")   # noqa: E731
+    if "alone" in ins:
+        body = ins["alone"]
+    else:
+        item = '"' + ("" if "whole-item" in ins else "x") + g("in-item") + g("whole-item") + '"'
+        rat = '"' + ("" if "whole-rationale" in ins else "r") + g("in-rationale") + g("whole-rationale") + '"'
+        refl = (',"reflection":"true' + ins["in-reflection-string"] + '"') if "in-reflection-string" in ins else ""
+        body = (g("lead") + "{" + g("after-open-brace") + '"pl' + g("in-key") + 'an"' + g("before-colon") + ":[" + g("after-open-bracket")
+                + item + g("after-item") + "]," + g("after-comma") + '"rationale":' + g("after-colon") + rat + refl
+                + g("before-close-brace") + "}" + g("trail"))
+    if wrap == "bare":
+        if any(s in ins for s in CP_FENCE_SLOTS):
+            raise HarnessError("fence slot without a fence: %r" % sorted(ins))
+        return body
+    tag = {"fenced-json": "json", "fenced-untagged": ""}.get(wrap)
+    if tag is None:
+        raise HarnessError("unknown wrapper %r" % wrap)
+    return g("before-fence") + "```" + tag + g("in-fence-tag") + "\n" + body + "\n```" + g("after-fence")
+
+
+def cp_case_text(case):
+    if case["kind"] == "cp":
+        return cp_text({case["slot"]: cp_unit(case["cp"], case["form"]) * int(case["count"])}, case["wrap"])
+    if case["kind"] == "cp2":
+        return cp_text({case["slot"]: cp_unit(case["cp"], "raw"), case["slot2"]: cp_unit(case["cp2"], "raw")}, case["wrap"])
+    raise HarnessError("not a code-point case: %s" % J(case))
+
+
+def _cp_sig(sig, case):
+    if not (sig.startswith("sanitiser:accepts") or sig.startswith("sanitiser:returns") or sig.startswith("plan_with_llm:p")):
+        return sig
+    grp = _CP_BY_NAME[case["cp"]][0]
+    if case["kind"] == "cp2" and _CP_BY_NAME[case["cp2"]][0] != grp:
+        grp = "mixed"
+    return "%s:code-point:%s" % (sig, grp)
+
+
+def check_cp_case(case, shapes):
+    """All oracles on one text of leg (D3).  Returns (violations, accepted?)."""
+    text = cp_case_text(case)
+    res, ok = check_string(text)
+    for shape in shapes:
+        r, _oc = check_plan_with_llm(text, shape)
+        res = res + r
+    desc = "; case=%s" % J(case)
+    return [(_cp_sig(sig, case), what + desc) for sig, what in res], ok
+
+
+def check_cp_sanitize_plan(kind, form, oshape, rshape):
+    """sanitize_plan (the dict-level sanitiser) on op / reflection strings that carry the code point."""
+    u = cp_unit(kind, form)
+    d = {}
+    if oshape != "absent":
+        d["ops"] = {"with": ["a" + u], "only": [u], "mixed": ["a", u, "b" + u + "c"]}[oshape]
+    if rshape != "absent":
+        d["reflection"] = {"true-with": "true" + u, "with-false": u + "false", "only": u}[rshape]
+    d0 = copy.deepcopy(d)
+    errors = []
+    try:
+        r = san.sanitize_plan(d, errors)
+    except BaseException as e:  # noqa
+        if isinstance(e, (KeyboardInterrupt, SystemExit)):
+            raise
+        return [("sanitize_plan:raises:%s" % type(e).__name__, "sanitize_plan(%r) raised %r" % (d0, e))], "raise"
+    out = []
+    if d != d0:
+        out.append(("sanitize_plan:mutates-input", "input %r became %r" % (d0, d)))
+    if not (isinstance(r, dict) and isinstance(r.get("reflection"), bool)):
+        out.append(("sanitize_plan:reflection-not-bool", "sanitize_plan(%r) returned %r" % (d0, r)))
+    return out, (bool(errors), r.get("reflection") if isinstance(r, dict) else None)
+
+
+CP_SP_OPS = ["absent", "with", "only", "mixed"]
+CP_SP_REF = ["absent", "true-with", "with-false", "only"]
+
+
+def cp_items(thorough):
+    wraps = CP_WRAPS_THOROUGH if thorough else CP_WRAPS_QUICK
+    items = [("one", k, form, wrap) for k, _g, _u in CP_KINDS for form in CP_FORMS for wrap in wraps]
+    items += [("sp", k) for k, _g, _u in CP_KINDS]
+    if thorough:
+        items += [("two", k, slot, wrap) for k, _g, _u in CP_KINDS for wrap in wraps for slot in cp_slots(wrap) if slot != "alone"]
+    return items
+
+
+def _cp_worker(chunk, st: Stats, thorough):
+    shapes = ("obj", "dict") if thorough else ("obj",)
+    counts = CP_COUNTS_THOROUGH if thorough else CP_COUNTS_QUICK
+    total = 0
+
+    def one(case):
+        nonlocal total
+        res, ok = check_cp_case(case, shapes)
+        total += 1
+        grp = _CP_BY_NAME[case["cp"]][0]
+        if ok:
+            st.add("cp_accepted"); st.add("nontrivial")
+            st.add("cp_accepted[%s]" % grp)
+        st.distinct("outcomes", ("cp", grp, "accepted" if ok else "rejected"))
+        for sig, what in res:
+            viol(st, sig, what, case)
+
+    for item in chunk:
+        if item[0] == "one":
+            _, k, form, wrap = item
+            for slot in cp_slots(wrap):
+                for n in counts:
+                    one({"kind": "cp", "cp": k, "form": form, "count": n, "slot": slot, "wrap": wrap})
+        elif item[0] == "two":
+            _, k, slot, wrap = item
+            for k2, _g, _u in CP_KINDS:
+                if k2 == k:
+                    continue
+                for slot2 in cp_slots(wrap):
+                    if slot2 == slot or slot2 == "alone":
+                        continue
+                    one({"kind": "cp2", "cp": k, "slot": slot, "cp2": k2, "slot2": slot2, "wrap": wrap})
+                    st.add("cp_pair_texts")
+        else:
+            _, k = item
+            for form in CP_FORMS:
+                for oshape in CP_SP_OPS:
+                    for rshape in CP_SP_REF:
+                        res, oc = check_cp_sanitize_plan(k, form, oshape, rshape)
+                        st.add("transitions"); st.add("validated"); st.add("states"); st.add("cp_sanitize_plan_calls")
+                        st.distinct("outcomes", ("cp-sanitize_plan", repr(oc)))
+                        for sig, what in res:
+                            viol(st, sig, what, {"kind": "cpsp", "cp": k, "form": form, "ops": oshape, "ref": rshape})
+    st.add("transitions", total * (1 + len(shapes)))
+    st.add("validated", total * (1 + len(shapes)))
+    st.add("plan_with_llm_calls", total * len(shapes))
+    st.add("states", total)
+    st.add("cp_texts", total)
+    if chunk and chunk[0][0] == "one":
+        _, k, form, wrap = chunk[0]
+        st.sample({"kind": "cp", "cp": k, "form": form, "count": 1, "slot": "in-item", "wrap": wrap})
+
+
+def _selfcheck_cp_builder():
+    """machinery check: without insertions every wrapper holds a valid planner object; an escaped unit decodes to the raw unit; the
+    descriptors of this leg (not the texts) are what is stored, so every stored case is plain ASCII."""
+    for wrap in CP_WRAPS_THOROUGH:
+        if not ref_acceptable(cp_text({}, wrap)):
+            raise HarnessError("code-point leg: base text of wrapper %s is not acceptable" % wrap)
+    for k, _g, u in CP_KINDS:
+        try:
+            v = strict_json('"' + _esc_units(u) + '"')
+        except _Bad:
+            raise HarnessError("code-point leg: escaped spelling of %s is not JSON" % k)
+        if v != u:      # (an escaped surrogate PAIR is the astral character itself; a lone or reversed one stays as it is)
+            raise HarnessError("code-point leg: escaped spelling of %s decodes to %r" % (k, v))
+        J({"cp": k}).encode("ascii")
+
+
+# =====================================================================================================
 # (C) full turns
 # =====================================================================================================
 class AD(dict):
@@ -1899,6 +2154,7 @@ def run(run: Run) -> None:
     install_canonical_merge(run)
     _selfcheck_acceptor()
     _selfcheck_limit_builder()
+    _selfcheck_cp_builder()
     _seams()
     th = run.thorough
     # (A)+(B)
@@ -1946,6 +2202,20 @@ def run(run: Run) -> None:
                               "entry_points": ["parse_and_validate", "plan_with_llm(result.text)"] + (["plan_with_llm({'text':..})"] if th else [])}
     if run.n.get("limit_accepted_with_padding", 0) == 0 or run.n.get("limit_over_by_padding_only", 0) == 0:
         raise HarnessError("vacuous limit leg: no padded text was accepted / no text exceeds a limit by padding only")
+    # (D3)
+    cpi = cp_items(th)
+    run.pmap(_cp_worker, cpi, extra=(th,), chunks=min(len(cpi), 16 * 12 - 1))
+    run.notes["code_point_leg"] = {"texts": run.n.get("cp_texts", 0), "pair_texts": run.n.get("cp_pair_texts", 0),
+                                   "accepted": run.n.get("cp_accepted", 0),
+                                   "accepted_by_group": {g: run.n.get("cp_accepted[%s]" % g, 0) for g in sorted({g for _k, g, _u in CP_KINDS})},
+                                   "sanitize_plan_calls": run.n.get("cp_sanitize_plan_calls", 0),
+                                   "kinds": [k for k, _g, _u in CP_KINDS], "forms": CP_FORMS,
+                                   "counts": (CP_COUNTS_THOROUGH if th else CP_COUNTS_QUICK),
+                                   "slots": CP_BODY_SLOTS + CP_FENCE_SLOTS, "wrappers": (CP_WRAPS_THOROUGH if th else CP_WRAPS_QUICK),
+                                   "entry_points": ["parse_and_validate", "plan_with_llm(result.text)"] + (["plan_with_llm({'text':..})"] if th else [])
+                                                   + ["sanitize_plan"]}
+    if run.n.get("cp_accepted[surrogate]", 0) == 0 and not any(sig.startswith(("sanitiser:", "plan_with_llm:")) for sig in run.viol):
+        raise HarnessError("vacuous code-point leg: no text with a surrogate code point was accepted and nothing was reported")
 
     try:
         json.loads(DEEP)
@@ -1982,7 +2252,16 @@ def run(run: Run) -> None:
                 "sibling content (only item / first of 2 / last of 16 at-limit items; empty / full plan) x wrapper (bare, json fence[, untagged "
                 "fence, surrounding whitespace]); for the item count {0, 1, 15, 16, 17, 33[, 2, 18, 32, 64]} x 7 kinds of item lists "
                 "(identical, distinct, padded, at-limit, every other blank / empty / null); each text through parse_and_validate and "
-                "plan_with_llm; non-trivial = accepted texts (texts over a limit by padding only are counted).")
+                "plan_with_llm; non-trivial = accepted texts (texts over a limit by padding only are counted). "
+                "(D3) kind of code point x where it sits: %d kinds of code point a Python str can hold (NUL, C0 / C1 controls, DEL, the "
+                "separators str.strip / str.splitlines honour and JSON does not (VT, FF, FS, US, NEL, NBSP, LS, PS, U+3000), combining mark, "
+                "non-ASCII digits, ZWSP, RLO, BOM, private use, non-character, lone high / lone low / reversed surrogates, astral, U+10FFFF) "
+                "x {raw, spelled as JSON \\u escapes} x {1, 2, 200, 201, 20001[, 3, 199, 1999, 2000, 2001]} repetitions x %d slots of a "
+                "valid planner text (before / after everything, after / inside the fence line, after the fence, after each structural "
+                "token, inside the key, inside / as the whole plan item, rationale, reflection string, alone) x wrapper (bare, json fence[, "
+                "untagged fence])[, thorough: every ordered pair of two different kinds in two different slots], each through "
+                "parse_and_validate and plan_with_llm; the kinds x forms x 4 op lists x 4 reflection strings through sanitize_plan; "
+                "non-trivial = accepted texts." % (len(CP_KINDS), len(CP_BODY_SLOTS) + len(CP_FENCE_SLOTS)))
     run.assume("token budget = t3.tokens >= 1 (the validator rejects tokens < 1; a Speak op with max_tokens=0 is outside the alphabet)")
     run.assume("utterance length is measured in whitespace-separated tokens (str.split), the unit the dialogue stage documents; the "
                "swept separator alphabet is ASCII whitespace (space, tab, LF, CR LF, runs and mixtures); other Unicode spaces occur only "
@@ -1997,6 +2276,9 @@ def run(run: Run) -> None:
                "object is present (raw-size guard, one-line fences) are counted in gap_* but not judged")
     run.assume("full turns run with the scheduler off (slice caps are covered at bundle level) and rule-based backend; retrieval count "
                "is the number of calls through orchestrator.t2_semantic, the only path to T2 in run_turn")
+    run.assume("the strings offered to the sanitiser are arbitrary Python str values, including ones that are not well-formed Unicode (lone "
+               "surrogates, as json.loads of a clipped \\ud83d escape or errors='surrogateescape' produce them); the code-point leg holds one "
+               "representative per class of code point, not every code point; a leading byte order mark may be ignored or rejected (RFC 8259 8.1)")
     run.assume("max_rag_loops in {2,5} is outside the validator's {0,1} and is injected after validation; such findings carry their own signature")
 
 
@@ -2041,6 +2323,12 @@ def replay(case):
     if k == "limit":
         c = {kk: v for kk, v in case.items() if kk != "kind"}
         res, _, _ = check_limit_case(c, ("obj", "dict"))
+        return res
+    if k in ("cp", "cp2"):
+        res, _ = check_cp_case(dict(case), ("obj", "dict"))
+        return res
+    if k == "cpsp":
+        res, _ = check_cp_sanitize_plan(case["cp"], case["form"], case["ops"], case["ref"])
         return res
     if k == "sp":
         res, _ = check_sanitize_plan(case["ops"], case["ref"], case.get("none", False))
